@@ -5,6 +5,7 @@
 #include <tulz/File.h>
 #include <tulz/Exception.h>
 
+#include <dirent.h>
 #include <fcntl.h>
 #include <sys/stat.h>
 #include <unistd.h>
@@ -21,6 +22,16 @@
 
 using tulz::File;
 using tulz::Path;
+
+static long fdBaseline = 0;
+static long openFds() {
+    long n = 0;
+    if (DIR *d = ::opendir("/proc/self/fd")) {
+        while (::readdir(d) != nullptr) ++n;
+        ::closedir(d);
+    }
+    return n;
+}
 
 static std::string root;
 static std::map<std::string, std::unique_ptr<File>> files;
@@ -81,7 +92,9 @@ static const char *modeName(File::Mode m) {
 static std::string step(const std::vector<std::string> &t) {
     const std::string &op = t[1];
     std::ostringstream o;
-    if (op == "reset") { files.clear(); return "ok"; }
+    if (op == "reset") { files.clear(); fdBaseline = openFds(); return "ok"; }
+    // descriptors opened since the start of the case and still open: exactly one per open File object
+    if (op == "fds") return "n=" + std::to_string(openFds() - fdBaseline);
     if (op == "root") { root = unhex(t[2]); return "ok"; }
     if (op == "mkfile") {
         std::string data = unhex(t[3]);
